@@ -602,6 +602,7 @@ V({
         "V23: ghost state: the abstract SearchGraph carries a history of iterations; SolverStuff::solve_iteration (havoc: it calls back into solve_goal) is ASSUMED to append what it ran against, what it produced, its minimums and the stack's cycle flags, to leave the goal's own node in place and the stack as high as it was",
         "V23: SearchGraph / Stack are abstract (views: node sequence, goal lookup, cycle flags); rollback_to truncates the node sequence; custom Index/IndexMut impls have no precondition; std::mem::replace per its documentation",
         "V23: partial correctness only (exec_allows_no_decreases_clause): termination of the fixed-point loop is not claimed",
+        "V23: `==` / `!=` on answers (V: PartialEq) decide structural equality (assumed; derived PartialEq on Fallible<Solution<I>>); the template's impl header carries the bound `V: PartialEq` on every tree",
         "V23: in the prelude's SolverStuff trait the callback type of solve_iteration is a named type parameter (with `impl Fn() -> bool + Clone` in a method of this generic trait the Verus front end does not terminate); the extracted function is unchanged",
     ],
     "trusted": ["chalk-recursive SearchGraph / Stack (abstract)", "SolverStuff::solve_iteration (havoc + ghost history)"],
